@@ -126,7 +126,15 @@ def _handle_job_set(function):
     def call(self, job_set=taskhandle.DEFAULT_JOB_SET):
         job_set.started_job(str(self))
         function(self)
-        job_set.finished_job()
+        try:
+            job_set.finished_job()
+        except exceptions.InterruptedTaskError:
+            # The change has already taken effect but the caller (e.g. an
+            # enclosing `ChangeSet`) will not consider it done; revert it so
+            # that an interrupted change leaves nothing behind.
+            inverse = {"do": "undo", "undo": "do"}[function.__name__]
+            getattr(self, inverse)()
+            raise
 
     return call
 
